@@ -3,6 +3,49 @@ import importlib, os, sys, traceback
 from . import core
 
 
+JUDGES = ["Judge_Driver", "Judge_RK", "Judge_Implicit", "Judge_Limiters", "Judge_Mesh", "Judge_FVM1D", "Judge_FVM2D", "Judge_Flux",
+          "Judge_Scalar", "Judge_Positive", "Judge_Model"]
+
+
+def replay_file(prop, path):
+    """re-judge the observation stored in a replay file: TLC evaluates the clauses again on exactly that record.
+    (The record is what the real code did on the case; to regenerate it from the code, rerun the check with the seed
+    recorded in the evidence file.)"""
+    import json
+    d = json.load(open(path))
+    case = d["case"]
+    rec = case.get("record", case)
+    if isinstance(rec, dict) and "kind" not in rec and "call" not in rec:
+        rec = case
+    rec = dict(rec)
+    rec["id"] = 1
+    wd = core.scratch("replay")
+    failed = None
+    pref = {"C07": "Judge_Driver", "C08": "Judge_Driver", "C05": "Judge_RK", "C06": "Judge_Implicit", "C12": "Judge_Limiters",
+            "C20": "Judge_Mesh", "C02": "Judge_Flux", "C09": "Judge_Scalar", "C10": "Judge_Positive", "C16": "Judge_Model",
+            "C17": "Judge_Model", "C18": "Judge_Model"}.get(prop)
+    order = ([pref] if pref else []) + [j for j in JUDGES if j != pref]
+    if isinstance(rec, dict) and rec.get("kind") in ("rhs2", "shift2", "rel2", "stencil2", "tok2"):
+        order = ["Judge_FVM2D"] + order
+    for jm in order:
+        try:
+            bad, _ = core.judge(jm, [rec], wd, name="replay_" + jm)
+        except core.MachineryError:
+            continue            # not a record of this judge
+        if any(b["clause"] == "unknown_record" for b in bad):
+            continue
+        failed = [b["clause"] for b in bad]
+        print("judged by %s: failed clauses %s" % (jm, failed))
+        break
+    if failed is None:
+        print("MACHINERY-FAILURE property=%s no judge accepts the record in %s" % (prop, path))
+        return 2
+    if any(c.startswith(prop) for c in failed):
+        print("VIOLATION property=%s replay=%s clause=%s" % (prop, path, ",".join(c for c in failed if c.startswith(prop))))
+        return 1
+    return 0
+
+
 def main(argv):
     if not argv:
         print("usage: check <Cxx> [--tier quick|thorough] [--replay file] | --selftest")
@@ -23,9 +66,9 @@ def main(argv):
             i += 1
     os.environ["VERIF_TIER"] = tier
     try:
-        mod = importlib.import_module("harness." + prop.lower())
         if replay:
-            return mod.replay(replay)
+            return replay_file(prop, replay)
+        mod = importlib.import_module("harness." + prop.lower())
         return mod.run(tier)
     except core.MachineryError as ex:
         print("MACHINERY-FAILURE property=%s %s" % (prop, ex))
